@@ -3,5 +3,6 @@ import ChamProofs.Props.C03
 import ChamProofs.Props.C02
 import ChamProofs.Props.C13
 import ChamProofs.Props.C01
+import ChamProofs.Props.C04
 import ChamProofs.Props.C05
 import ChamProofs.Props.C08
